@@ -8,7 +8,10 @@
 //!   presentation format; `roundtrip`: text and wire round trips of valid
 //!   names through every constructor; `wire`: wire constructors as
 //!   gatekeepers on valid/damaged octets; `parsed`: compressed names;
-//!   `ops`: slicing, splitting, truncating at label starts, chains (names.rs);
+//!   `ops`: slicing, splitting, truncating at label starts (every
+//!   RangeBounds shape), chains (names.rs); the name arguments of
+//!   `append_origin` / `append_name` / `chain` come in every representation
+//!   that implements ToName / ToRelativeName (reps.rs);
 //! * `scan`: names read by the zone-file scanner under $ORIGIN (scan.rs);
 //! * `sweep`: all (operation, prefix length, label length) combinations
 //!   (sweep.rs).
@@ -21,6 +24,7 @@ use std::collections::BTreeMap;
 mod machine;
 mod names;
 mod refs;
+mod reps;
 mod scan;
 mod sweep;
 
@@ -123,9 +127,39 @@ fn health(c: &BTreeMap<String, u64>, _thorough: bool) -> Result<(), String> {
         ("ops:chain-rel:ok", 50),
         ("scan:record-ok", 100),
         ("scan:rejected", 50),
+        // representation dimension of the name arguments (flat / not flat)
+        ("vec:append_origin:nonflat:near-limit:ok", 200),
+        ("vec:append_origin:nonflat:near-limit:err", 200),
+        ("vec:append_origin:flat:near-limit:ok", 200),
+        ("vec:append_name:nonflat:near-limit:ok", 200),
+        ("vec:append_name:nonflat:near-limit:err", 200),
+        ("array:append_origin:nonflat:near-limit:err", 50),
+        ("ops:chain-abs:nonflat:ok", 500),
+        ("ops:chain-abs:nonflat:rejected", 100),
+        ("vec:append_dec_u8_label:ok", 100),
+        ("vec:append_dec_u8_label:err", 100),
+        ("vec:append_hex_digit_label:ok", 100),
+        ("vec:append_hex_digit_label:err", 100),
+        // every RangeBounds shape
+        ("ops:name-range-shapes:bounded", 1000),
+        ("ops:relative-range-shapes", 1000),
+        ("sweep:op:append_origin:chain-rel-abs", 1000),
+        ("sweep:op:append_origin:ref-name-slice", 1000),
+        ("sweep:op:append_origin:parsed-compressed", 1000),
+        ("sweep:op:append_name:chain-rel-rel", 1000),
+        ("sweep:op:append_dec_u8_label", 1000),
+        ("sweep:op:append_hex_digit_label", 1000),
         ("sweep:op:append_label", 1000),
         ("sweep:op:from_str", 1000),
     ];
+    // ranges that take in the root label: the call either panics (as
+    // documented) or returns a value that was validated; it must have been made
+    for entry in ["name-slice-to-end", "name-range-to-end"] {
+        let got = c.get(&format!("ops:{entry}:panics-as-documented")).copied().unwrap_or(0) + c.get(&format!("ops:{entry}:returned-valid-value")).copied().unwrap_or(0);
+        if got < 1000 {
+            return Err(format!("class ops:{entry}:* starved: {got} < 1000"));
+        }
+    }
     for (k, min) in need {
         let got = c.get(*k).copied().unwrap_or(0);
         if got < *min {
@@ -140,7 +174,8 @@ fn extra(_opts: &RunOpts, agg: &mut Agg) -> Result<(), (Violation, Vec<u8>)> {
         "sweep_space".into(),
         serde_json::json!({
             "ops": ["push-loop new label", "append_slice new label", "append_label", "append_name", "append_origin", "from_str & co (relative and absolute text)",
-                     "push-loop in open label of 1/31/62/63", "append_slice in open label of 1/31/62/63", "finish/into_name/into_absolute", "chain(rel, abs)", "chain(rel, rel)"],
+                     "push-loop in open label of 1/31/62/63", "append_slice in open label of 1/31/62/63", "finish/into_name/into_absolute", "chain(rel, abs)", "chain(rel, rel)",
+                     "append_origin with the origin as Chain / &Name<[u8]> / compressed ParsedName", "append_name with the name as &RelativeName<[u8]> / Chain", "append_dec_u8_label (closed prefix, open label of 1; label_len stands for the value 4*n)", "append_hex_digit_label (label_len = nibble)"],
             "prefix_len": "0..=256", "label_len": "0..=65", "combinations": sweep::sweep_size(true),
             "enumerated_completely_in_both_tiers": true
         }),
@@ -153,7 +188,7 @@ pub fn prop() -> Option<Prop> {
         id: "C03",
         rule: "builder/array cases: an operation sequence is non-trivial when a step comes within 2 octets of a limit (open label 61..=65, name 252..=256) or an operation succeeds/fails after an earlier failure (distinct by op kinds, chosen lengths and final octets); text cases: the reference length is 252..=257, a label is 61..=65, the text has an escape, or the text is malformed (distinct by text); roundtrip/ops/wire/parsed/scan: the name (or the chain total, or the input) is within 2-3 octets of 255/254, has a label >= 61 or octets that need escaping (distinct by octets); sweep: combinations with prefix+label within the same windows (distinct by index), all combinations are evaluated",
         assumptions: &[
-            "Name/RelativeName slice, range, split, truncate are only called at indices for which is_label_start() is true and with start <= end (documented precondition; other indices panic by contract)",
+            "Name/RelativeName slice, range, split, truncate are only called at indices for which is_label_start() is true and with start <= end (documented precondition; other indices panic by contract); the one exception are ranges of an absolute name that take in its root label (no upper bound, or end == len): they are called under catch_unwind, the documented panic is accepted, a value that is returned instead must be a valid relative name",
             "only the unsound direction is a violation for construction steps (Ok where a limit is broken, or an invalid value escapes); refusals of steps that are within limits are recorded as classes, except where a round-trip law demands acceptance (text written by Display / wire octets of a valid name)",
             "after a failed single-step operation (push, append_slice, append_label, append_name, push_symbol) the observable state (finish() of a clone, in_label) must be unchanged; after a failed multi-step operation (append_dec_u8_label, append_hex_digit_label, append_chars, append_symbols, append_name on a full fixed buffer) it must be one of the states the operation passes through (a prefix of its effect; earlier labels intact)",
             "reference reader for the presentation format: '.' separates labels, \\DDD (<= 255) and \\c (printable) escapes, printable ASCII otherwise (refs.rs); reference validator walks length octets (refs.rs); neither calls into domain",
